@@ -2,18 +2,25 @@ From Coq Require Import Reals.
 From CB Require Import Base.Vec3 Model.FaceGeom.
 Open Scope R_scope.
 
+(* cbv with beta/iota interleaved: a plain [unfold] of the nested vector operations blows the term
+   up exponentially (every vector argument is used three times). *)
+Ltac fg_ring :=
+  apply vec_eq; cbv [face_normal_raw centre4 vadd vsub vopp vscale cross vx vy vz fst snd]; field.
+Ltac fg_destruct p0 p1 p2 p3 :=
+  destruct p0 as [[? ?] ?], p1 as [[? ?] ?], p2 as [[? ?] ?], p3 as [[? ?] ?].
+
 (** reversing the point order flips the normal *)
 Lemma normal_reversed p0 p1 p2 p3 :
   face_normal_raw p3 p2 p1 p0 = vopp (face_normal_raw p0 p1 p2 p3).
-Proof. unfold face_normal_raw, centre4. vec_ring. Qed.
+Proof. fg_destruct p0 p1 p2 p3. fg_ring. Qed.
 
 (** a cyclic shift of the points leaves centre and normal unchanged *)
 Lemma normal_shifted p0 p1 p2 p3 :
   face_normal_raw p1 p2 p3 p0 = face_normal_raw p0 p1 p2 p3.
-Proof. unfold face_normal_raw, centre4. vec_ring. Qed.
+Proof. fg_destruct p0 p1 p2 p3. fg_ring. Qed.
 
 Lemma centre_shifted p0 p1 p2 p3 : centre4 p1 p2 p3 p0 = centre4 p0 p1 p2 p3.
-Proof. unfold centre4. vec_ring. Qed.
+Proof. fg_destruct p0 p1 p2 p3. fg_ring. Qed.
 
 Lemma centre_reversed p0 p1 p2 p3 : centre4 p3 p2 p1 p0 = centre4 p0 p1 p2 p3.
-Proof. unfold centre4. vec_ring. Qed.
+Proof. fg_destruct p0 p1 p2 p3. fg_ring. Qed.
